@@ -4,6 +4,7 @@
 #include <dlfcn.h>
 #include <pthread.h>
 #include <semaphore.h>
+#include <algorithm>
 #include <cerrno>
 #include <cstdlib>
 #include <ctime>
@@ -412,6 +413,42 @@ namespace sim
         return 1 << 30;
     }
 
+    // profile of the site sweep: distinct (call site, thread) pairs met while another thread was runnable (fixed table)
+    struct ProfEnt { void *site; int thread; long long n; long long first_step; long long order; };
+    ProfEnt prof_tab[16384];
+    long long prof_n = 0;
+    void prof_note(void *site, int thread)
+    {
+        size_t i = ((reinterpret_cast<uintptr_t>(site) >> 2) * 0x9E3779B97F4A7C15ULL + static_cast<unsigned>(thread) * 0x632BE59BD9B4E019ULL) >> 50;      // 14 bits
+        for (size_t k = 0; k < 16384; ++k, i = (i + 1) & 16383)
+        {
+            if (prof_tab[i].site == site && prof_tab[i].thread == thread) { ++prof_tab[i].n; return; }
+            if (prof_tab[i].site == nullptr) { prof_tab[i] = ProfEnt{site, thread, 1, st.steps, prof_n++}; return; }
+        }
+    }
+    std::vector<SiteInfo> profiled_sites()
+    {
+        std::vector<ProfEnt> v;
+        for (auto &e : prof_tab) if (e.site != nullptr) v.push_back(e);
+        std::sort(v.begin(), v.end(), [](const ProfEnt &a, const ProfEnt &b) { return a.order < b.order; });
+        std::vector<SiteInfo> out;
+        for (auto &e : v) out.push_back(SiteInfo{static_cast<unsigned long long>(reinterpret_cast<uintptr_t>(e.site)), e.thread, e.n, e.first_step});
+        return out;
+    }
+    int thread_state(int id)
+    {
+        if (id < 0 || static_cast<size_t>(id) >= threads.size()) return -1;
+        Th *t = threads[static_cast<size_t>(id)];
+        switch (t->st)
+        {
+            case RUN: return 0;
+            case BLK_MUTEX: return 1;
+            case BLK_COND: return t->timed ? 3 : 2;
+            case SLEEPING: return 4;
+            default: return 5;
+        }
+    }
+
     void configure(const Config &c)
     {
         init_real();
@@ -438,6 +475,8 @@ namespace sim
             single_index = static_cast<long long>(r.next() % static_cast<unsigned long long>(-c.instr_target_mod));
         }
         for (auto &e : site_tab) { e.site = nullptr; e.n = 0; }
+        for (auto &e : prof_tab) e = ProfEnt{nullptr, 0, 0, 0, 0};
+        prof_n = 0;
         threads.clear();
         mutexes.clear();
     }
@@ -474,6 +513,29 @@ namespace sim
         for (Th *t : threads) if (t != me && t->st == RUN) { other_runnable = true; break; }
         // (a targeted point is only spent when somebody else could actually run: start-up code executed alone would
         // otherwise use up the budget)
+        if (cfg.instr_profile)
+        {   // profile run of the site sweep: no extra pre-emption at all, only the list of candidate sites
+            if (other_runnable) prof_note(site, me->id);
+            return;
+        }
+        if (cfg.instr_site != 0)
+        {
+            // site sweep: exactly one call site is this run's extra pre-emption point
+            if (static_cast<unsigned long long>(reinterpret_cast<uintptr_t>(site)) == cfg.instr_site && other_runnable)
+            {
+                const int n = ++single_hits;
+                if (n > cfg.instr_site_skip && n <= cfg.instr_site_skip + 64)
+                {
+                    ++st.instr_points;
+                    me->in_hook = true;
+                    yielding = true;
+                    sticky_pending = true;
+                    reschedule();
+                    me->in_hook = false;
+                }
+            }
+            return;
+        }
         if (cfg.instr_target_mod < 0)
         {
             // single-site mode: the k-th distinct call site met after start-up (k seeded below -instr_target_mod) is THE target
@@ -653,3 +715,4 @@ extern "C" int pthread_cond_broadcast(pthread_cond_t *c)
     sim::sim_cond_wake(c, true);
     return 0;
 }
+// (prof_tab: site sweep profile)
